@@ -202,6 +202,17 @@ class CollectResult(Unit):
         ex.globals['errno.ENOTBLK'] = z3.IntVal(15)
         ex.globals['os'] = Module('os')
         ex.globals['os.strerror'] = Fn(lambda e, s, a, k, n: [('ok', s, fresh('strerror', z3.StringSort()))], trusted='os.strerror returns a string')
+        # the signal module, should the code name signals symbolically: numbers as on Linux; strsignal() rejects numbers that are not signals
+        for nm, v in (('SIGINT', 2), ('SIGKILL', 9), ('SIGSEGV', 11), ('SIGTERM', 15)):
+            ex.globals['signal.' + nm] = z3.IntVal(v)
+
+        def strsignal(e, s, a, k, n):
+            from pyvc.core import as_int
+            i = as_int(e, s, a[0])
+            s1 = s.fork().assume(i >= 1, i <= 64)
+            s2 = s.fork().assume(z3.Or(i < 1, i > 64))
+            return [x for x in (('ok', s1, fresh('strsignal', z3.StringSort())), e.raise_new(s2, 'ValueError')) if e.feasible(x[1])]
+        ex.globals['signal.strsignal'] = Fn(strsignal, trusted='signal.strsignal(n) raises ValueError unless n is a valid signal number (1..64)')
         ex.globals['time'] = Module('time')
         ex.globals['multiprocessing'] = Module('multiprocessing')
         ex.globals['multiprocessing.connection'] = Module('multiprocessing.connection')
